@@ -1771,6 +1771,22 @@ class UnitBuilder:
                             raise Undecided(f"lost anchor: .{aft}( #{k} in {fnq} is not followed by .{meth}(")
                         return self._closure_body(body, j + 1, fnq)
             raise Undecided(f"lost anchor: .{aft}( #{k} in {fnq}")
+        m = re.match(r"^match_of path ([\w:]+)(?: (\d+))?$", anchor)
+        if m:
+            # `match A::b(ARGS) { .. }`: the K-th call of the path A::b that is the scrutinee of a match, the whole match expression
+            want = [t.text for t in lex(m.group(1))]
+            k = int(m.group(2) or 1)
+            cnt = 0
+            for i in range(len(body) - len(want) - 1):
+                if [t.text for t in body[i:i + len(want)]] == want and is_p(body[i + len(want)], "(") \
+                        and i > 0 and body[i - 1].kind == "ident" and body[i - 1].text == "match":
+                    cnt += 1
+                    if cnt == k:
+                        close = match_close(body, i + len(want))
+                        if not is_p(body[close + 1], "{"):
+                            raise Undecided(f"lost anchor: match body after {m.group(1)}( in {fnq}")
+                        return body[i - 1:match_close(body, close + 1) + 1]
+            raise Undecided(f"lost anchor: match {m.group(1)}( #{k} in {fnq}")
         m = re.match(r"^(match_of|closure_body|expr) chain (\w+)(?:#(\d+)| (\d+))?$", anchor)
         if m:
             kind, meth, k = m.group(1), m.group(2), int(m.group(3) or m.group(4) or 1)
